@@ -219,16 +219,23 @@ def r3_weighted_sum(ctx: Context) -> None:
         rng = None
         if isinstance(v, ast.Name):
             evs = reaching_events(g, v.id, g.nodes_of(r)[0])
-            inits = [a for _, k, a in evs if k == "assign"]
-            augs = [a for _, k, a in evs if k == "aug"]
+            def _is_self_add(a) -> bool:
+                return isinstance(a, ast.Assign) and isinstance(a.value, ast.BinOp) and isinstance(a.value.op, ast.Add) and (
+                    (isinstance(a.value.left, ast.Name) and a.value.left.id == v.id) or (isinstance(a.value.right, ast.Name) and a.value.right.id == v.id))
+            inits = [a for _, k, a in evs if k == "assign" and not _is_self_add(a)]
+            augs = [a for _, k, a in evs if k == "aug"] + [a for _, k, a in evs if k == "assign" and _is_self_add(a)]
             other = [a for _, k, a in evs if k not in ("assign", "aug")]
             init_ok = len(inits) == 1 and isinstance(inits[0].value, ast.Constant) and inits[0].value.value in (0, 0.0)  # type: ignore[union-attr]
             ctx.check(init_ok and not other, "R3.accumulator", "BaseLoss.compute_loss:accumulator", "the sum starts from 0 and is only accumulated",
                       f"accumulator initialised by `{src(inits[0]) if inits else '?'}` / other writes {[src(o)[:40] for o in other]}", f, inits[0] if inits else r)
-            ctx.check(len(augs) == 1 and isinstance(augs[0].op, ast.Add), "R3.accumulator", "BaseLoss.compute_loss:one-term", "exactly one term is added per coordinate",  # type: ignore[union-attr]
+            ctx.check(len(augs) == 1 and (isinstance(augs[0], ast.Assign) or isinstance(augs[0].op, ast.Add)), "R3.accumulator", "BaseLoss.compute_loss:one-term", "exactly one term is added per coordinate",  # type: ignore[union-attr]
                       f"{len(augs)} accumulation statements", f, r)
             if augs:
-                term = augs[0].value  # type: ignore[union-attr]
+                if isinstance(augs[0], ast.Assign):
+                    bo = augs[0].value
+                    term = bo.right if (isinstance(bo.left, ast.Name) and bo.left.id == v.id) else bo.left
+                else:
+                    term = augs[0].value  # type: ignore[union-attr]
                 lp = getattr(augs[0], "_parent", None)
                 if isinstance(lp, ast.For) and isinstance(lp.target, ast.Name):
                     idx, rng = lp.target.id, lp.iter
